@@ -121,7 +121,7 @@ seq_t dtw_distance{{ suffix }}{{ suffix2 }}(seq_t *s1, idx_t l1,
         dtw[j] = INFINITY;
     }
     // Deal with psi-relaxation in first row
-    for (i=0; i<settings->psi_2b + 1; i++) {
+    for (i=0; i<MIN(settings->psi_2b + 1, length); i++) {
         dtw[i] = 0;
     }
     idx_t skip = 0;
